@@ -216,6 +216,12 @@ class Interp:
 
     # attributes
     def op_chop(self, op) -> None:
+        if op.get("late"):
+            # a correction made on the assembled mesh: the chop goes to the operation's block
+            from classy_blocks.grading.chop import Chop
+
+            self.mesh.blocks[self.added.index(op["target"])].chop(op["axis"], Chop(**op["args"]))
+            return
         self.env[op["target"]].chop(op["axis"], **op["args"])
 
     def op_shape_chop(self, op) -> None:
